@@ -1,6 +1,8 @@
 import CfrVerif.Proofs.RealInst
 import CfrVerif.Proofs.GameWF
 import CfrVerif.Proofs.Frontier
+import CfrVerif.Props.C06
+import CfrVerif.Props.C07
 import CfrVerif.Proofs.WellFormed
 /-!
 # C05 — every solve returns a well-formed strategy profile and never panics
@@ -162,6 +164,30 @@ theorem one_thread_never_errors (env : Env) (sched : Sched ℝ) (g : Game ℝ) (
   have h1 : env.threads 1 = 1 := by simp [Env.threads]
   simp only [gameSolve, h1, if_true]
   cases m <;> exact ⟨_, rfl⟩
+
+/-- **every solve that returns, returns a well-formed result**: through `Game::solve`, for every
+accepted game, every method, every accepted parameter tuple (`none` = the default), every budget,
+threshold, thread count, environment, draw oracle and fair schedule -/
+theorem solve_wellformed (env : Env) (sched : Sched ℝ) (hs : sched.Fair) (g : Game ℝ)
+    (hg : GameWF g) (m : Method) (T : Nat) (thr : Option (Ext ℝ)) (n : Nat)
+    (params : Option (RegretParams ℝ)) (hp : ∀ p, params = some p → p.OK) (draw : DrawFn ℝ)
+    (out : SolveOut ℝ) (h : gameSolve env sched g m T thr n params draw = .ok out) :
+    out.WellFormed g T := by
+  have hpo : (params.getD RegretParams.default).OK := by
+    cases params with
+    | none => exact presets_ok.2.2.2.2.2
+    | some p => exact hp p rfl
+  cases m with
+  | full =>
+    have := full_thread_count_invariant env sched hs g T thr n params draw out h
+    rw [this]
+    exact vanilla_single_wellformed g hg false _ hpo draw T thr
+  | sampled =>
+    have := sampled_thread_count_invariant env sched hs g hg .sampled (by decide) T thr n params draw out h
+    exact wellformed_of_same g T _ _ this (vanilla_single_wellformed g hg true _ hpo draw T thr)
+  | external =>
+    have := sampled_thread_count_invariant env sched hs g hg .external (by decide) T thr n params draw out h
+    exact wellformed_of_same g T _ _ this (external_single_wellformed g hg _ hpo draw T thr)
 
 /-! ## no infoset twice on a path -/
 
